@@ -85,10 +85,30 @@ def show_value(v, index) -> str:
     raise RuntimeError(f"unexpected value {v!r}")
 
 
+_SUB = {}
+
+
+def sub_deferred_class():
+    """a trivial Deferred subclass (class SubDeferred(Deferred): pass): behaviour must not depend on the exact type"""
+    from twisted.internet import defer
+
+    if "cls" not in _SUB:
+        _SUB["cls"] = type("SubDeferred", (defer.Deferred,), {})
+    return _SUB["cls"]
+
+
+def rand_cls(rng, nd, p=0.5):
+    """per-Deferred class choice for a case: 0 = Deferred, 1 = trivial subclass"""
+    mode = rng.random()
+    if mode < 0.35:
+        return [1] * nd
+    return [1 if rng.random() < p else 0 for _ in range(nd)]
+
+
 class Runner:
     """Executes a program on real Deferreds, recording the observation."""
 
-    def __init__(self, canc):
+    def __init__(self, canc, cls=None):
         from twisted.internet import defer
 
         self.defer = defer
@@ -97,7 +117,8 @@ class Runner:
         self.funcs: dict = {}            # id(function) -> add-operation number
         self.nadd = 0
         for i, c in enumerate(canc):
-            self.ds.append(defer.Deferred(self._canceller(i, c)))
+            klass = sub_deferred_class() if (cls and i < len(cls) and cls[i]) else defer.Deferred
+            self.ds.append(klass(self._canceller(i, c)))
         self.index = {id(d): i for i, d in enumerate(self.ds)}
         self.keep = []                   # keep Failures alive: no GC-time logging during a case
         self.in_canceller = None
@@ -327,7 +348,7 @@ def run_program(case) -> str:
     try:
         with warnings.catch_warnings():
             warnings.simplefilter("ignore")
-            r = Runner(case["canc"])
+            r = Runner(case["canc"], case.get("cls"))       # case["cls"]: which Deferreds are subclass instances
             evs = [r.op(o) for o in case["ops"]]
             obs = " ".join(evs) + " | " + r.final()
             # consume failures so that nothing is reported at garbage collection
@@ -340,6 +361,11 @@ def run_program(case) -> str:
             return obs
     finally:
         defer.setDebugging(old)
+
+
+def with_subclasses(cases, rng, fraction):
+    """a sample of the cases once more with (some of) the Deferreds being instances of a trivial subclass"""
+    return [{**c, "cls": rand_cls(rng, len(c["canc"]))} for c in cases if rng.random() < fraction]
 
 
 def with_debug(cases, rng, fraction):
